@@ -40,7 +40,7 @@ RULE = (
     "sections, chain depth, key size, SHA flag, command kinds)."
 )
 ASSUMPTIONS = [
-    "the SB 2.x layout is the one in vf/refs/sb2_rom.py, validated against six elftosb-made SB 2.1 files of the repository's test data",
+    "the SB 2.x layout is the one in vf/refs/sb2_rom.py, validated against the five elftosb-made SB 2.1 files of the repository's test data (exact load counts, group memory ids, jump with SP, 8-byte program)",
     "all sections carry the LAST flag in SPSDK and elftosb files; the model decodes every section up to image_blocks and does not judge that flag",
     "the data-HMAC slicing for n > 1 (first n-1 slices of count//n blocks) and the SB 2.0 'sign' section have no third-party ground truth here; "
     "the model follows the format description (Appendix A); the certificate block's image_length is judged for SB 2.1 only",
